@@ -130,3 +130,228 @@ MUTANTS += [
     {"id": "C11-benign-handle-remove-first", "prop": "C11", "benign": True,
      "edits": [("src/image.rs", "                    if let (Some(img), Some(pos)) = (self.imgs.remove(id), pos) {", "                    let cached = self.imgs.remove(id);\n                    if let (Some(img), Some(pos)) = (cached, pos) {")]},
 ]
+
+
+# ---------------- robustness: behaviour-preserving refactorings (must stay silent) and their breaking counterparts ----------------
+ERASE_MATCH = ('        match pos {\n'
+               '            Some(pos) => write!(\n'
+               '                out,\n'
+               '                "\\x1b_Ga=d,d=i,i={},p={}\\x1b\\\\",\n'
+               '                kitty_image_id(img),\n'
+               '                kitty_placement_id(pos),\n'
+               '            )?,\n'
+               '            None => write!(out, "\\x1b_Ga=d,d=i,i={}\\x1b\\\\", kitty_image_id(img))?,\n'
+               '        }\n')
+PIXEL_LOOP = ('            let mut payload_write = Base64Encoder::new(Vec::new());\n'
+              '            for color in img.iter() {\n'
+              '                payload_write.write_all(&color.to_rgba())?;\n'
+              '            }\n'
+              '            let payload = payload_write.finish()?;\n')
+INVERSE = ('        col: (placement_id.saturating_sub(1) / KITTY_MAX_DIM) as usize,\n'
+           '        row: (placement_id.saturating_sub(1) % KITTY_MAX_DIM) as usize,')
+IMPL = "impl ImageHandler for KittyImageHandler {\n"
+MORE = "let more = i32::from(index + 1 < count);"
+CHUNK_LOOP_HEAD = "            for (index, chunk) in chunks.enumerate() {\n"
+CHUNK_LOOP_TAIL = ('                // epilogue\n'
+                   '                out.write_all(b"\\x1b\\\\")?;\n'
+                   '            }\n')
+MUTANTS += [
+    # erase: one command written piecewise, placement id computed up front through Option::map
+    {"id": "C11-benign-erase-sequential-writes", "prop": "C11", "benign": True,
+     "edits": [(I, ERASE_MATCH,
+                '        let img_id = kitty_image_id(img);\n'
+                '        let placement_id = pos.map(kitty_placement_id);\n'
+                '        write!(out, "\\x1b_Ga=d,d=i,i={img_id}")?;\n'
+                '        if let Some(placement_id) = placement_id {\n'
+                '            write!(out, ",p={placement_id}")?;\n'
+                '        }\n'
+                '        write!(out, "\\x1b\\\\")?;\n')]},
+    {"id": "C11-erase-sequential-writes-no-terminator", "prop": "C11", "expect": "FRAMING/KittyImageHandler::erase",
+     "edits": [(I, ERASE_MATCH,
+                '        let img_id = kitty_image_id(img);\n'
+                '        let placement_id = pos.map(kitty_placement_id);\n'
+                '        write!(out, "\\x1b_Ga=d,d=i,i={img_id}")?;\n'
+                '        if let Some(placement_id) = placement_id {\n'
+                '            write!(out, ",p={placement_id}\\x1b\\\\")?;\n'
+                '        }\n')]},
+    {"id": "C11-erase-map-closure-transposes", "prop": "C11", "expect": "TEMPLATE/KittyImageHandler::erase/delete-placement-p",
+     "edits": [(I, ERASE_MATCH,
+                '        let img_id = kitty_image_id(img);\n'
+                '        let placement_id = pos.map(|p| kitty_placement_id(Position::new(p.col, p.row)));\n'
+                '        write!(out, "\\x1b_Ga=d,d=i,i={img_id}")?;\n'
+                '        if let Some(placement_id) = placement_id {\n'
+                '            write!(out, ",p={placement_id}")?;\n'
+                '        }\n'
+                '        write!(out, "\\x1b\\\\")?;\n')]},
+    {"id": "C11-benign-erase-if-let-closure-map", "prop": "C11", "benign": True,
+     "edits": [(I, ERASE_MATCH,
+                '        let image = kitty_image_id(img);\n'
+                '        if let Some(placement) = pos.map(|p| kitty_placement_id(p)) {\n'
+                '            write!(out, "\\x1b_Ga=d,d=i,i={image},p={placement}\\x1b\\\\")?;\n'
+                '        } else {\n'
+                '            write!(out, "\\x1b_Ga=d,d=i,i={image}\\x1b\\\\")?;\n'
+                '        }\n')]},
+    {"id": "C11-benign-erase-is-some-unwrap", "prop": "C11", "benign": True,
+     "edits": [(I, ERASE_MATCH,
+                '        if pos.is_some() {\n'
+                '            write!(out, "\\x1b_Ga=d,d=i,i={},p={}\\x1b\\\\", kitty_image_id(img), kitty_placement_id(pos.unwrap()))?;\n'
+                '        } else {\n'
+                '            write!(out, "\\x1b_Ga=d,d=i,i={}\\x1b\\\\", kitty_image_id(img))?;\n'
+                '        }\n')]},
+    # payload: helper extracted / iterator chain instead of the loop
+    {"id": "C11-benign-payload-helper", "prop": "C11", "benign": True,
+     "edits": [(I, PIXEL_LOOP, '            let payload = kitty_payload(img)?;\n'),
+               (I, IMPL, 'fn kitty_payload(img: &Image) -> Result<Vec<u8>, Error> {\n'
+                         '    let mut encoder = Base64Encoder::new(Vec::new());\n'
+                         '    for pixel in img.iter() {\n'
+                         '        encoder.write_all(&pixel.to_rgba())?;\n'
+                         '    }\n'
+                         '    Ok(encoder.finish()?)\n'
+                         '}\n\n' + IMPL)]},
+    {"id": "C11-payload-helper-backing-store-order", "prop": "C11", "expect": "PAYLOAD/KittyImageHandler::draw/pixel-order",
+     "edits": [(I, PIXEL_LOOP, '            let payload = kitty_payload(img)?;\n'),
+               (I, IMPL, 'fn kitty_payload(img: &Image) -> Result<Vec<u8>, Error> {\n'
+                         '    let mut encoder = Base64Encoder::new(Vec::new());\n'
+                         '    for pixel in img.data().iter() {\n'
+                         '        encoder.write_all(&pixel.to_rgba())?;\n'
+                         '    }\n'
+                         '    Ok(encoder.finish()?)\n'
+                         '}\n\n' + IMPL)]},
+    {"id": "C11-benign-pixels-try-for-each", "prop": "C11", "benign": True,
+     "edits": [(I, '            for color in img.iter() {\n                payload_write.write_all(&color.to_rgba())?;\n            }\n',
+                '            img.iter()\n                .try_for_each(|color| payload_write.write_all(&color.to_rgba()))?;\n')]},
+    {"id": "C11-pixels-try-for-each-backing-store", "prop": "C11", "expect": "PAYLOAD/KittyImageHandler::draw/pixel-order",
+     "edits": [(I, '            for color in img.iter() {\n                payload_write.write_all(&color.to_rgba())?;\n            }\n',
+                '            img.data()\n                .iter()\n                .try_for_each(|color| payload_write.write_all(&color.to_rgba()))?;\n')]},
+    {"id": "C11-pixels-skipped-when-transparent", "prop": "C11", "expect": "PAYLOAD/KittyImageHandler::draw/pixel-bytes",
+     "edits": [(I, '                payload_write.write_all(&color.to_rgba())?;\n',
+                '                if color.to_rgba()[3] != 0 {\n                    payload_write.write_all(&color.to_rgba())?;\n                }\n')]},
+    {"id": "C11-benign-pixels-while-let", "prop": "C11", "benign": True,
+     "edits": [(I, '            for color in img.iter() {\n                payload_write.write_all(&color.to_rgba())?;\n            }\n',
+                '            let mut pixels = img.iter();\n            while let Some(color) = pixels.next() {\n                let rgba = color.to_rgba();\n                payload_write.write_all(&rgba)?;\n            }\n')]},
+    # continuation flag: equivalent conditions / wrong ones
+    {"id": "C11-benign-more-flag-subtraction", "prop": "C11", "benign": True,
+     "edits": [(I, MORE, "let more = i32::from(count - index > 1);")]},
+    {"id": "C11-benign-more-flag-last-index", "prop": "C11", "benign": True,
+     "edits": [(I, MORE, "let last = count - 1;\n                let more = u8::from(index < last);")]},
+    {"id": "C11-benign-more-flag-plus-two", "prop": "C11", "benign": True,
+     "edits": [(I, MORE, "let more = if index + 2 <= count { 1 } else { 0 };")]},
+    {"id": "C11-more-flag-subtraction-off-by-one", "prop": "C11", "expect": "TEMPLATE/KittyImageHandler::draw/transmit-first-m",
+     "edits": [(I, MORE, "let more = i32::from(count - index > 2);")]},
+    {"id": "C11-more-flag-always-set", "prop": "C11", "expect": "TEMPLATE/KittyImageHandler::draw/transmit-first-m",
+     "edits": [(I, MORE, "let more = i32::from(count - index >= 1);")]},
+    {"id": "C11-more-flag-underflows-on-single-chunk", "prop": "C11", "expect": "TEMPLATE/KittyImageHandler::draw/transmit-first-m",
+     "edits": [(I, MORE, "let more = i32::from(count - 2 >= index);")]},
+    # placement id inverse: guarded subtraction idioms
+    {"id": "C11-benign-inverse-guarded-sub", "prop": "C11", "benign": True,
+     "edits": [(I, "    Position {\n" + INVERSE,
+                "    let index = if placement_id > 0 { placement_id - 1 } else { 0 };\n    Position {\n"
+                "        col: (index / KITTY_MAX_DIM) as usize,\n        row: (index % KITTY_MAX_DIM) as usize,")]},
+    {"id": "C11-benign-inverse-checked-sub", "prop": "C11", "benign": True,
+     "edits": [(I, "    Position {\n" + INVERSE,
+                "    let index = placement_id.checked_sub(1).unwrap_or(0);\n    Position {\n"
+                "        row: (index % KITTY_MAX_DIM) as usize,\n        col: (index / KITTY_MAX_DIM) as usize,")]},
+    {"id": "C11-benign-inverse-match-checked-sub", "prop": "C11", "benign": True,
+     "edits": [(I, "    Position {\n" + INVERSE,
+                "    let index = match placement_id.checked_sub(1) {\n        Some(index) => index,\n        None => 0,\n    };\n    Position {\n"
+                "        row: (index % KITTY_MAX_DIM) as usize,\n        col: (index / KITTY_MAX_DIM) as usize,")]},
+    {"id": "C11-inverse-guarded-sub-wrong-offset", "prop": "C11", "expect": "PAIRING/image::kitty_placement_to_pos/inverse-disagrees",
+     "edits": [(I, "    Position {\n" + INVERSE,
+                "    let index = if placement_id > 1 { placement_id - 2 } else { 0 };\n    Position {\n"
+                "        col: (index / KITTY_MAX_DIM) as usize,\n        row: (index % KITTY_MAX_DIM) as usize,")]},
+    {"id": "C11-inverse-guard-swallows-small-ids", "prop": "C11", "expect": "PAIRING/image::kitty_placement_to_pos/inverse-disagrees",
+     "edits": [(I, "    Position {\n" + INVERSE,
+                "    let index = if placement_id > 5 { placement_id - 1 } else { 0 };\n    Position {\n"
+                "        col: (index / KITTY_MAX_DIM) as usize,\n        row: (index % KITTY_MAX_DIM) as usize,")]},
+    # hoisted dimensions, pre-sized buffer, debug assertions of facts that hold
+    {"id": "C11-benign-hoisted-dimensions", "prop": "C11", "benign": True,
+     "edits": [(I, "        if img.width() == 0 || img.height() == 0 {\n", "        let (width, height) = (img.width(), img.height());\n        if width == 0 || height == 0 {\n"),
+               (I, "            let mut payload_write = Base64Encoder::new(Vec::new());\n",
+                "            let pixels = width.saturating_mul(height).min(img.data().len());\n            let mut payload_buf = Vec::new();\n"
+                "            let _ = payload_buf.try_reserve_exact((pixels * 4).div_ceil(3) * 4);\n            let mut payload_write = Base64Encoder::new(payload_buf);\n"),
+               (I, "                        img.height(),\n                        img.width(),\n", "                        height,\n                        width,\n"),
+               (I, "            let payload = payload_write.finish()?;\n", "            let payload = payload_write.finish()?;\n            debug_assert!(payload.len() % 4 == 0);\n")]},
+    {"id": "C11-hoisted-dimensions-swapped", "prop": "C11", "expect": "TEMPLATE/KittyImageHandler::draw/transmit-first-",
+     "edits": [(I, "        if img.width() == 0 || img.height() == 0 {\n", "        let (width, height) = (img.height(), img.width());\n        if width == 0 || height == 0 {\n"),
+               (I, "                        img.height(),\n                        img.width(),\n", "                        height,\n                        width,\n")]},
+    {"id": "C11-benign-debug-assert-id-ranges", "prop": "C11", "benign": True,
+     "edits": [(I, "    img.hash() % KITTY_MAX_ID + 1\n", "    let img_id = img.hash() % KITTY_MAX_ID + 1;\n    debug_assert!((1..=KITTY_MAX_ID).contains(&img_id));\n    img_id\n"),
+               (I, "    (pos.row as u64 % KITTY_MAX_DIM) + (pos.col as u64 % KITTY_MAX_DIM) * KITTY_MAX_DIM + 1\n",
+                "    let row = pos.row as u64 % KITTY_MAX_DIM;\n    let col = pos.col as u64 % KITTY_MAX_DIM;\n    let placement_id = col * KITTY_MAX_DIM + row + 1;\n"
+                "    debug_assert!(placement_id >= 1 && placement_id <= KITTY_MAX_ID);\n    placement_id\n")]},
+    # chunk size as a named / computed constant, chunk loop as an iterator chain, writes through a helper
+    {"id": "C11-benign-chunk-size-constant", "prop": "C11", "benign": True,
+     "edits": [(I, "payload.chunks(4096)", "payload.chunks(KITTY_CHUNK_SIZE)"),
+               (I, "const KITTY_MAX_DIM: u64 = 65535;\n", "const KITTY_MAX_DIM: u64 = 65535;\nconst KITTY_CHUNK_SIZE: usize = 4 * 1024;\n")]},
+    {"id": "C11-chunk-size-constant-not-multiple-of-4", "prop": "C11", "expect": "CHUNK/KittyImageHandler::draw/chunk-size-not-multiple-of-4",
+     "edits": [(I, "payload.chunks(4096)", "payload.chunks(KITTY_CHUNK_SIZE)"),
+               (I, "const KITTY_MAX_DIM: u64 = 65535;\n", "const KITTY_MAX_DIM: u64 = 65535;\nconst KITTY_CHUNK_SIZE: usize = 4 * 1024 - 2;\n")]},
+    {"id": "C11-benign-chunk-loop-try-for-each", "prop": "C11", "benign": True,
+     "edits": [(I, CHUNK_LOOP_HEAD, "            chunks.enumerate().try_for_each(|(index, chunk)| -> Result<(), Error> {\n"),
+               (I, CHUNK_LOOP_TAIL, '                // epilogue\n                out.write_all(b"\\x1b\\\\")?;\n                Ok(())\n            })?;\n')]},
+    {"id": "C11-chunk-loop-try-for-each-no-epilogue", "prop": "C11", "expect": "FRAMING/KittyImageHandler::draw",
+     "edits": [(I, CHUNK_LOOP_HEAD, "            chunks.enumerate().try_for_each(|(index, chunk)| -> Result<(), Error> {\n"),
+               (I, CHUNK_LOOP_TAIL, '                Ok(())\n            })?;\n')]},
+    {"id": "C11-benign-epilogue-helper", "prop": "C11", "benign": True,
+     "edits": [(I, '                // epilogue\n                out.write_all(b"\\x1b\\\\")?;\n', '                kitty_epilogue(out)?;\n'),
+               (I, IMPL, 'fn kitty_epilogue(out: &mut dyn Write) -> Result<(), Error> {\n    out.write_all(b"\\x1b\\\\")?;\n    Ok(())\n}\n\n' + IMPL)]},
+    {"id": "C11-epilogue-helper-wrong-terminator", "prop": "C11", "expect": "FRAMING/KittyImageHandler::draw",
+     "edits": [(I, '                // epilogue\n                out.write_all(b"\\x1b\\\\")?;\n', '                kitty_epilogue(out)?;\n'),
+               (I, IMPL, 'fn kitty_epilogue(out: &mut dyn Write) -> Result<(), Error> {\n    out.write_all(b"\\x1b")?;\n    Ok(())\n}\n\n' + IMPL)]},
+    {"id": "C11-chunks-exact-drops-tail", "prop": "C11", "expect": "C11/",
+     "edits": [(I, "let chunks = payload.chunks(4096);", "let chunks = payload.chunks_exact(4096);")]},
+    # Shape::nth with other local names / remainder form
+    {"id": "C11-benign-shape-nth-renamed", "prop": "C11", "benign": True,
+     "edits": [("src/surface.rs", "        let row = n / self.width;\n        let col = n - row * self.width;\n        (row < self.height).then_some(Position { row, col })",
+                "        let r = n / self.width;\n        let c = n % self.width;\n        if r < self.height {\n            Some(Position { row: r, col: c })\n        } else {\n            None\n        }")]},
+    # cache bookkeeping through a helper method
+    {"id": "C11-benign-suppress-match", "prop": "C11", "benign": True,
+     "edits": [(I, "let suppress = self.suppress.unwrap_or(0);", "let suppress = match self.suppress {\n            Some(level) => level,\n            None => 0,\n        };"),
+               (I, "self.suppress.replace(2);", "self.suppress = Some(2);")]},
+]
+
+
+# cache lookup spelled with contains_key + insert instead of the entry API
+_ENTRY_IMPORT = ("    collections::{HashMap, HashSet, hash_map::Entry},", "    collections::{HashMap, HashSet},")
+_VACANT = "        if let Entry::Vacant(entry) = self.imgs.entry(img_id) {"
+MUTANTS += [
+    {"id": "C11-benign-cache-contains-key", "prop": "C11", "benign": True,
+     "edits": [(I,) + _ENTRY_IMPORT, (I, _VACANT, "        if !self.imgs.contains_key(&img_id) {"),
+               (I, "            entry.insert(img.clone());", "            self.imgs.insert(img_id, img.clone());")]},
+    {"id": "C11-cache-contains-key-never-inserted", "prop": "C11", "expect": "vacant-without-insert",
+     "edits": [(I,) + _ENTRY_IMPORT, (I, _VACANT, "        if !self.imgs.contains_key(&img_id) {"),
+               (I, "            entry.insert(img.clone());", "")]},
+    {"id": "C11-cache-contains-key-other-key-inserted", "prop": "C11", "expect": "vacant-without-insert",
+     "edits": [(I,) + _ENTRY_IMPORT, (I, _VACANT, "        if !self.imgs.contains_key(&img_id) {"),
+               (I, "            entry.insert(img.clone());", "            self.imgs.insert(img_id / 2, img.clone());")]},
+    {"id": "C11-cache-contains-key-inverted", "prop": "C11", "expect": "TRANSMIT-ONCE",
+     "edits": [(I,) + _ENTRY_IMPORT, (I, _VACANT, "        if self.imgs.contains_key(&img_id) {"),
+               (I, "            entry.insert(img.clone());", "            self.imgs.insert(img_id, img.clone());")]},
+    {"id": "C11-benign-cache-match-entry", "prop": "C11", "benign": True,
+     "edits": [(I, _VACANT, "        if let Entry::Vacant(slot) = self.imgs.entry(kitty_image_id(img)) {"),
+               (I, "            entry.insert(img.clone());", "            slot.insert(img.clone());")]},
+    {"id": "C11-benign-position-new-in-inverse", "prop": "C11", "benign": True,
+     "edits": [(I, "    Position {\n" + INVERSE + "\n    }\n",
+                "    let index = placement_id.saturating_sub(1);\n    Position::new((index % KITTY_MAX_DIM) as usize, (index / KITTY_MAX_DIM) as usize)\n")]},
+    {"id": "C11-position-new-in-inverse-swapped", "prop": "C11", "expect": "PAIRING/image::kitty_placement_to_pos/inverse-disagrees",
+     "edits": [(I, "    Position {\n" + INVERSE + "\n    }\n",
+                "    let index = placement_id.saturating_sub(1);\n    Position::new((index / KITTY_MAX_DIM) as usize, (index % KITTY_MAX_DIM) as usize)\n")]},
+    {"id": "C11-benign-handle-error-is-none-early-return", "prop": "C11", "benign": True,
+     "edits": [(I, "                if error.is_some() {\n", "                if error.is_none() {\n                    return Ok(true);\n                }\n                {\n")]},
+    {"id": "C11-benign-handle-error-if-let", "prop": "C11", "benign": True,
+     "edits": [(I, "                if error.is_some() {\n", "                if let Some(_reason) = error {\n")]},
+    {"id": "C11-handle-error-is-none-inverted", "prop": "C11", "expect": "TRANSMIT-ONCE",
+     "edits": [(I, "                if error.is_some() {\n", "                if error.is_none() {\n")]},
+]
+
+
+_PIX = '            for color in img.iter() {\n                payload_write.write_all(&color.to_rgba())?;\n            }\n'
+MUTANTS += [
+    {"id": "C11-benign-pixels-two-exclusive-loops", "prop": "C11", "benign": True,
+     "edits": [(I, _PIX, '            if img.height() == 1 {\n                for color in img.iter() {\n                    payload_write.write_all(&color.to_rgba())?;\n                }\n'
+                         '            } else {\n                let mut pixels = img.iter();\n                while let Some(color) = pixels.next() {\n                    payload_write.write_all(&color.to_rgba())?;\n                }\n            }\n')]},
+    {"id": "C11-pixels-encoded-twice", "prop": "C11", "expect": "PAYLOAD/KittyImageHandler::draw/pixel-loop",
+     "edits": [(I, _PIX, _PIX + '            if img.height() == 1 {\n                for color in img.iter() {\n                    payload_write.write_all(&color.to_rgba())?;\n                }\n            }\n')]},
+    {"id": "C11-pixels-extra-header-byte", "prop": "C11", "expect": "PAYLOAD/KittyImageHandler::draw/",
+     "edits": [(I, _PIX, '            payload_write.write_all(&[0u8])?;\n' + _PIX)]},
+]
